@@ -123,6 +123,14 @@ def seq_ops(R, s, tier_random=False, idx=IDX, r=None):
             R.expect("def l = %s; delete_at(l, %d); l" % (S, i), newl, "delete_at:" + cls(i, n), ("del", S, i))
             R.expect("delete_at(%s, %d)" % (S, i), removed, "delete_at-result:" + cls(i, n), ("delr", S, i))
             R.expect("def l = %s; l[%d] = 'X'; l" % (S, i), rs.assign(s, i, "X"), "assign:" + cls(i, n), ("asg", S, i))
+            # the same call site evaluated again (a helper called twice, a loop body): the index means the same each time
+            twice = rs.insert_at(rs.insert_at(s, i, "P"), i, "Q")
+            R.expect("def l = %s; def put_(l_, x) insert_at(l_, %d, x); put_(l, 'P'); put_(l, 'Q'); l" % (S, i), twice, "insert_at-same-site-twice:" + cls(i, n), ("ins2", S, i))
+            R.expect("def l = %s; for x in ['P', 'Q'] do insert_at(l, %d, x) end; l" % (S, i), twice, "insert_at-in-loop:" + cls(i, n), ("ins2l", S, i))
+            R.expect("def l = %s; def ix = %d; insert_at(l, ix, 'P'); insert_at(l, ix, 'Q'); [l, ix]" % (S, i), [twice, i], "insert_at-index-variable:" + cls(i, n), ("ins2v", S, i))
+            d1, _r1 = rs.delete_at(s, i)
+            d2, _r2 = rs.delete_at(d1, i)
+            R.expect("def l = %s; for x in [1, 2] do delete_at(l, %d) end; l" % (S, i), d2, "delete_at-in-loop:" + cls(i, n), ("del2", S, i))
     if isstr:
         parts = [a for a in syms] + [a + b for a in syms for b in syms]
     else:
